@@ -373,6 +373,7 @@ where
             incoming,
             outgoing,
             outgoing_link_frames,
+            max_frame_body_size: usize::MAX,
         };
 
         // send a begin
